@@ -5,3 +5,4 @@ import CC.Thm.C12
 #print axioms CC.Thm.C12.leafTable_sound
 #print axioms CC.Thm.C12.transpose4_eq
 #print axioms CC.Thm.C12.source_portable_match
+#print axioms CC.Thm.C12.source_x86_match
